@@ -259,6 +259,8 @@ func (oracleC15) Invariant(x *OCtx, v *View, m *Mon) []Violation {
 		if len(want) > 0 {
 			x.Wit("C15:listing-by-service-nonempty")
 		}
+		sort.Strings(want)
+		sort.Strings(got)
 		if !reflect.DeepEqual(want, got) {
 			add("listing-by-service-is-exact", n, fmt.Sprintf("bindings of service %s: listed %v, stored %v", n, got, want))
 		}
